@@ -232,10 +232,19 @@ Print Assumptions C12_solve_quadratic_roots.
 (* the whole comprehension of roots(c, n) with normalize=True: n angles, radius 1, every one an n-th root of c/|c|
    (cmath.polar / cmath.rect themselves are the numerical shell) *)
 Theorem C12_roots_list : forall (t : R) (n : nat),
-  List.length (m_roots_angles R RO t n) = n /\ m_root_radius_normalized R RO = 1 /\
+  List.length (m_roots_angles R RO t n) = n /\
   forall th, In th (m_roots_angles R RO t n) -> cpow (cos th, sin th) n = (cos t, sin t).
 Proof. exact roots_list. Qed.
 Print Assumptions C12_roots_list.
+
+(* the modulus handed to cmath.rect, both branches of `1 if normalize else r**(1/pow)` (r = |c| > 0): 1 when normalising,
+   else the positive n-th root of |c| - so that root^n = c (normalize=False) resp. c/|c| (True, the default) *)
+Theorem C12_roots_radius : forall (r : R) (n : nat), 0 < r -> (0 < n)%nat ->
+  m_root_radius R RO true r (INR n) = 1 /\
+  0 < m_root_radius R RO false r (INR n) /\ (m_root_radius R RO false r (INR n)) ^ n = r /\
+  dflt_m_roots_normalize R RO = true.
+Proof. exact roots_radius. Qed.
+Print Assumptions C12_roots_radius.
 
 (* degenerate inputs (zero vectors, collinear points, parallel lines) *)
 Theorem C12_cotan_degenerate : forall a0 a1 a2 b0 b1 b2 c0 c1 c2 : R,
